@@ -376,7 +376,23 @@ def argument_swap_rule(ctx, chk, rule="C08.3", modules=("roberta_generator.py", 
                 continue
             g = callees[0]
             params = [p for p in g.params if p != "self"]
-            for pos, a in enumerate(call.args):
+            decos = {d.id for d in g.node.decorator_list if isinstance(d, ast.Name)}
+            if g.cls and "classmethod" in decos and params:
+                params = params[1:]                 # the class itself is not passed at the call site
+            flat = []
+            for a in call.args:
+                if isinstance(a, ast.Starred):
+                    # `*board` with `board = (length, width, ...)` bound once in this function: its elements, in place
+                    defs_ = [st for st in walk_no_nested_defs(f.node) if isinstance(a.value, ast.Name) and isinstance(st, (ast.Assign, ast.AugAssign, ast.For, ast.With, ast.NamedExpr))
+                             and any(isinstance(x, ast.Name) and isinstance(x.ctx, ast.Store) and x.id == a.value.id for x in ast.walk(st))]
+                    if len(defs_) == 1 and isinstance(defs_[0], ast.Assign) and len(defs_[0].targets) == 1 and isinstance(defs_[0].targets[0], ast.Name) \
+                            and isinstance(defs_[0].value, (ast.Tuple, ast.List)) and not any(isinstance(e_, ast.Starred) for e_ in defs_[0].value.elts) \
+                            and a.value.id not in f.params:
+                        flat.extend(defs_[0].value.elts)
+                        continue
+                    break                           # positions after an unpacked sequence of unknown length are not known from the text
+                flat.append(a)
+            for pos, a in enumerate(flat):
                 name = a.id if isinstance(a, ast.Name) else (a.attr if isinstance(a, ast.Attribute) else None)
                 if name is None or pos >= len(params):
                     continue
